@@ -185,7 +185,7 @@ def gen_observer(rng, n, tier="quick"):
 
 # ------------------------------------------------------------------ geocoder
 NAMES = ["London", "london", "New York", "new_york", "Europe", "europe", "X", "Abu Dhabi", "a b",
-         "\"q\"", "Sana'a", "Asia", "Paris", "PARIS", "#x", " lead", "A,B"]
+         "\"q\"", "Sana'a", "Asia", "Paris", "PARIS", "#x", " lead", "A,B", "a  b", "Fort  Ross"]
 REGIONS = ["England", "england", "USA", "United Kingdom", "united_kingdom", "R", "", "r r"]
 TZS = ["Europe/London", "America/New_York", "Asia/Dubai", "europe/x", "Europe", "Etc/UTC", "X/Y/Z",
        "asia/aden", "A B/c"]
